@@ -5,6 +5,7 @@ import (
 	"go/token"
 	"go/types"
 	"os"
+	"sort"
 	"strings"
 
 	"golang.org/x/tools/go/ssa"
@@ -198,6 +199,7 @@ func (vc *VC) Generate() (err error) {
 	}
 	// requires
 	if vc.ct != nil {
+		vc.factGuard = "true"
 		ev := vc.newEval(vc.fn, h, h, nil)
 		for i, c := range vc.ct.Requires {
 			t, err := ev.boolExpr(c.E, false)
@@ -208,6 +210,7 @@ func (vc *VC) Generate() (err error) {
 			vc.assume(t)
 		}
 	}
+	vc.factGuard = ""
 	vc.translateBody("true", h)
 	if vc.ct != nil {
 		if err := vc.postObligations(); err != nil {
@@ -340,6 +343,8 @@ func (vc *VC) loopHeader(li *loopInfo, R string, h *Heap) {
 	li.entryHeap = h.clone()
 	name := fmt.Sprintf("loop#%d", li.ord)
 	// 1. invariants hold on entry
+	vc.root().factGuard = R
+	defer func() { vc.root().factGuard = "" }()
 	if li.spec != nil {
 		ev := vc.newEval(vc.fn, *h, vc.heap0, li)
 		ev.override = li.phiEntry
@@ -420,6 +425,8 @@ func (vc *VC) backEdge(li *loopInfo, from *ssa.BasicBlock, cond string, h Heap) 
 	if li.spec == nil {
 		return
 	}
+	vc.root().factGuard = cond
+	defer func() { vc.root().factGuard = "" }()
 	over := map[ssa.Value][]string{}
 	for _, in := range li.header.Instrs {
 		phi, ok := in.(*ssa.Phi)
@@ -460,6 +467,8 @@ func (vc *VC) havocLoop(li *loopInfo, h *Heap) {
 	var targets []target
 	coarseAll := false
 	mapsTouched := false
+	mapTypes := map[int]bool{}
+	var preciseMaps []string
 	ghostHavoc := map[string]bool{}
 	defer func() {
 		for _, g := range sortedKeys(ghostHavoc) {
@@ -495,6 +504,52 @@ func (vc *VC) havocLoop(li *loopInfo, h *Heap) {
 			st := x.X.Type().Underlying().(*types.Pointer).Elem().Underlying().(*types.Struct)
 			off, _ := vc.L.FieldOffset(st, x.Field)
 			return base.Plus(off), true
+		case *ssa.UnOp:
+			// a pointer re-read in every iteration from a local cell (a captured or address-taken
+			// variable) that the loop neither assigns nor passes to a call
+			if x.Op != token.MUL {
+				return Addr{}, false
+			}
+			cell, isAlloc := x.X.(*ssa.Alloc)
+			if !isAlloc || !invariantVal(cell) {
+				return Addr{}, false
+			}
+			if _, isPtr := x.Type().Underlying().(*types.Pointer); !isPtr {
+				return Addr{}, false
+			}
+			if _, have := vc.vals[cell]; !have {
+				return Addr{}, false
+			}
+			for b := range li.body {
+				for _, in := range b.Instrs {
+					if st, ok := in.(*ssa.Store); ok && st.Addr == cell {
+						return Addr{}, false
+					}
+					if c, ok := in.(ssa.CallInstruction); ok {
+						for _, a := range c.Common().Args {
+							if a == cell {
+								return Addr{}, false
+							}
+						}
+						if mc, ok := c.Common().Value.(*ssa.MakeClosure); ok {
+							for _, bnd := range mc.Bindings {
+								if bnd == cell {
+									return Addr{}, false
+								}
+							}
+						}
+					}
+					if mc, ok := in.(*ssa.MakeClosure); ok {
+						for _, bnd := range mc.Bindings {
+							if bnd == cell {
+								return Addr{}, false
+							}
+						}
+					}
+				}
+			}
+			ca := ptrAddr(vc.val1(cell))
+			return ptrAddr(sel(sel(sel(h.H[SPtr], ca.Obj), ca.Slot), ca.Idx)), true
 		}
 		return Addr{}, false
 	}
@@ -554,7 +609,24 @@ func (vc *VC) havocLoop(li *loopInfo, h *Heap) {
 					targets = append(targets, target{sort: l.Sort, obj: a.Obj, slot: plus(a.Slot, num(int64(i)))})
 				}
 			case *ssa.MapUpdate:
+				// a map read from a field of a loop-invariant object, where the loop never stores
+				// to that field: one specific map object
+				if ld, ok := x.Map.(*ssa.UnOp); ok {
+					if fa, ok := ld.X.(*ssa.FieldAddr); ok {
+						if a, ok := addrOf(fa); ok && !vc.loopStoresField(li, fa) {
+							preciseMaps = append(preciseMaps, sel(sel(sel(h.H[SRef], a.Obj), a.Slot), a.Idx))
+							continue
+						}
+					}
+				}
+				if invariantVal(x.Map) {
+					if _, have := vc.vals[x.Map]; have {
+						preciseMaps = append(preciseMaps, vc.val1(x.Map))
+						continue
+					}
+				}
 				mapsTouched = true
+				mapTypes[vc.mapTypeID(x.Map.Type())] = true
 			case *ssa.Alloc, *ssa.MakeSlice, *ssa.MakeMap, *ssa.MakeInterface, *ssa.MakeClosure, *ssa.MakeChan:
 				allocs = true
 			case ssa.CallInstruction:
@@ -565,6 +637,7 @@ func (vc *VC) havocLoop(li *loopInfo, h *Heap) {
 						continue
 					case "delete":
 						mapsTouched = true
+						mapTypes[vc.mapTypeID(cc.Args[0].Type())] = true
 						continue
 					case "append", "copy":
 						allocs = true
@@ -692,12 +765,41 @@ func (vc *VC) havocLoop(li *loopInfo, h *Heap) {
 		fr := vc.declare(vc.fresh("hv"), "(Array Int "+innerSort[t.sort]+")")
 		h.H[t.sort] = vc.define("H"+sortTag[t.sort], heapSortName(t.sort), sto(cur, t.obj, sto(sel(cur, t.obj), t.slot, fr)))
 	}
+	if len(preciseMaps) > 0 && !mapsTouched {
+		seenM := map[string]bool{}
+		for _, m := range preciseMaps {
+			if seenM[m] {
+				continue
+			}
+			seenM[m] = true
+			for _, k := range sortedKeys(h.M) {
+				if strings.HasPrefix(k, "G_") {
+					continue
+				}
+				fr := vc.declare(vc.fresh(k+"_hv"), vc.mapHeapSort(k))
+				h.M[k] = vc.define(k, vc.mapHeapSort(k), sto(h.M[k], m, sel(fr, m)))
+			}
+		}
+		allocs = true
+	}
 	if mapsTouched {
 		for _, k := range sortedKeys(h.M) {
 			if strings.HasPrefix(k, "G_") {
 				continue // ghost state changes only through contracts
 			}
+			old := h.M[k]
 			h.M[k] = vc.declare(vc.fresh(k), vc.mapHeapSort(k))
+			// only maps of the updated types change
+			var isT []string
+			var ids []int
+			for id := range mapTypes {
+				ids = append(ids, id)
+			}
+			sort.Ints(ids)
+			for _, id := range ids {
+				isT = append(isT, "(= (dyntype m) "+num(int64(id))+")")
+			}
+			vc.assume(fmt.Sprintf("(forall ((m Int)) (! (=> (not %s) (= (select %s m) (select %s m))) :pattern ((select %s m))))", or(isT...), h.M[k], old, h.M[k]))
 		}
 	}
 	if allocs || mapsTouched {
@@ -771,7 +873,12 @@ func flattenAnd(e Expr) []Expr {
 
 func (vc *VC) postObligations() error {
 	ct := vc.ct
+	defer func() { vc.root().factGuard = "" }()
 	for _, r := range vc.rets {
+		vc.root().factGuard = r.guard
+		if r.guard == "" {
+			vc.root().factGuard = "true"
+		}
 		ev := vc.newEval(vc.fn, r.heap, vc.heap0, nil)
 		ev.results = r.vals
 		rblk := r.blk
@@ -883,8 +990,16 @@ func (vc *VC) frameObligation(r retRec, pos string) error {
 				}
 			}
 			if !okm {
-				vc.addObl(&Obligation{Name: fmt.Sprintf("%s/frame[%s]@b%d", vc.key, k, r.blk.Index), Kind: "frame",
-					Goal: implies(r.guard, eq(r.heap.M[k], vc.root().heap0M(k))), Pos: pos, Src: "modifies clause (maps)"})
+				if strings.HasPrefix(k, "G_") {
+					vc.addObl(&Obligation{Name: fmt.Sprintf("%s/frame[%s]@b%d", vc.key, k, r.blk.Index), Kind: "frame",
+						Goal: implies(r.guard, eq(r.heap.M[k], vc.root().heap0M(k))), Pos: pos, Src: "modifies clause (ghost state)"})
+				} else {
+					// maps that existed on entry are unchanged (maps created by the call are its own)
+					fm := vc.fresh("fm")
+					vc.addObl(&Obligation{Name: fmt.Sprintf("%s/frame[%s]@b%d", vc.key, k, r.blk.Index), Kind: "frame",
+						Decls: []string{"(declare-const " + fm + " Int)"},
+						Goal:  implies(and(r.guard, "(<= "+fm+" "+vc.heap0.Alloc+")"), eq(sel(r.heap.M[k], fm), sel(vc.root().heap0M(k), fm))), Pos: pos, Src: "modifies clause (maps)"})
+				}
 			}
 		}
 	}
